@@ -6,7 +6,10 @@
    the wait group (pcs SFin/RFin), the error lists and doneCh.  The Modify stream is abstracted to:
    every request sent is answered by one response; a fault makes Send (or Recv) number f_k fail;
    after a failure on one side the stream is broken for the other side too; after CloseSend the
-   server ends the RPC (EOF) once everything is answered.
+   server ends the RPC (EOF) once everything is answered.  FEnd: the server ends the RPC CLEANLY
+   (status OK) after f_k responses, whatever is still unanswered: Recv number f_k returns io.EOF -
+   which the receiver does not record as an error (it sets shut and leaves) - and every later Send
+   fails (with io.EOF, recorded by the sender as a send error).
    Model only, no proofs (Client/LifecycleFacts.v has them). *)
 From Coq Require Import List Arith Bool.
 Import ListNotations.
@@ -21,7 +24,7 @@ Inductive wpc := W0 | W1 | W2 | W3 | W4 | WFin.
 Inductive cpc := C0 | C1 | C2 | C3 | CFin.
 Inductive wres := WOk | WErr | WTimeout.
 
-Inductive fside := FNone | FSend | FRecv.
+Inductive fside := FNone | FSend | FRecv | FEnd.
 Inductive cmode := MClose | MReset.
 
 (* v_select : q() selects on sendExitCh while waiting for room in modifyCh
@@ -139,6 +142,9 @@ Definition send_fails (c : lcfg) (s : st) : bool :=
   broken s || (fault_on s && match f_side c with FSend => sent s =? f_k c | _ => false end).
 Definition recv_fault (c : lcfg) (s : st) : bool :=
   fault_on s && match f_side c with FRecv => recvd s =? f_k c | _ => false end.
+(* the server has ended the RPC with status OK after f_k responses *)
+Definition recv_end (c : lcfg) (s : st) : bool :=
+  fault_on s && match f_side c with FEnd => recvd s =? f_k c | _ => false end.
 
 Definition step_sender (c : lcfg) (s : st) : option st :=
   if reconn s then None else
@@ -164,6 +170,7 @@ Definition step_receiver (c : lcfg) (s : st) : option st :=
   | R0 => Some (set_r_pc (if shut s then RExit else R1) s)
   | R1 => if broken s then Some (set_r_pc (R2 KErr) s)
           else if recv_fault c s then Some (set_r_pc (R2 KErr) (set_broken true s))
+          else if recv_end c s then Some (set_r_pc (R2 KEof) (set_broken true s))
           else if 0 <? inflight s then Some (set_r_pc (R2 KMsg) (set_inflight (pred (inflight s)) (set_recvd (S (recvd s)) s)))
           else if half s then Some (set_r_pc (R2 KEof) s)
           else None
@@ -254,6 +261,12 @@ Definition fresh (s : st) : bool :=
   && (inflight s =? 0) && negb (broken s) && negb (half s) && negb (done s)
   && match s_pc s, r_pc s with S0, R0 => true | _, _ => false end.
 
+(* the sender goroutine is on its way out (it no longer takes requests) *)
+Definition sender_gone (s : st) : bool := match s_pc s with SExit0 | SExit1 | SFin => true | _ => false end.
+(* Reset has not cleared the error lists (and Connect has not replaced the stream) yet *)
+Definition before_reset (c : lcfg) (s : st) : Prop :=
+  match c_pc s with C0 | C1 | C2 => True | C3 => False | CFin => c_mode c = MClose end.
+
 (* ---------------------------------------------------------------- schedules used to run cases *)
 
 Fixpoint first_enabled (c : lcfg) (s : st) (ts : list thread) : option st :=
@@ -283,6 +296,15 @@ Definition run_slow (c : lcfg) (fuel : nat) : st :=
 Definition run_fair (c : lcfg) (fuel : nat) : st :=
   run_prio c [TSender; TReceiver; TApp; TAppExit; TWaiter; TCloser] (fun _ => false) fuel (init c).
 
+(* "clean end, idle sender": the application queues the first `first` requests and pauses; the sender
+   sends them all and parks in its channel receive; the receiver takes the f_k responses and then the
+   end of the RPC (FEnd); only then the application queues the rest, AwaitConverged and the closer run *)
+Definition is_a0 (p : apc) : bool := match p with A0 => true | _ => false end.
+Definition run_end (c : lcfg) (first fuel : nat) : st :=
+  let s1 := run_prio c [TApp; TSender] (fun s => is_a0 (a_pc s) && (first <=? a_i s)) fuel (init c) in
+  let s2 := run_prio c [TSender; TReceiver] (fun _ => false) fuel s1 in
+  run_prio c [TApp; TAppExit; TSender; TReceiver; TWaiter; TCloser] (fun _ => false) fuel s2.
+
 (* the observable outcome of a run *)
 Record outcome := mkout {
   o_q : bool;                 (* the burst of Q calls returned *)
@@ -309,15 +331,19 @@ Definition outcome_eqb (a b : outcome) : bool :=
   && Bool.eqb (o_done a) (o_done b) && Bool.eqb (o_closed a) (o_closed b) && (o_left a =? o_left b)
   && Bool.eqb (o_fresh a) (o_fresh b).
 
-(* a case: burst size, fault side and index, mode, slow Send?, and what the implementation did *)
+(* a case: burst size, fault side and index, mode, slow Send?, (FEnd: requests queued before the server
+   ends the RPC), and what the implementation did *)
 (* lc_modelled = false: a scenario outside this model (checked by the harness' oracle only) *)
-Record lcase := mklcase { lc_modelled : bool; lc_n : nat; lc_side : fside; lc_k : nat; lc_mode : cmode; lc_slow : bool; lc_obs : outcome }.
+Record lcase := mklcase { lc_modelled : bool; lc_n : nat; lc_side : fside; lc_k : nat; lc_mode : cmode; lc_slow : bool; lc_first : nat; lc_obs : outcome }.
 Definition lcase_cfg (v : lvariant) (k : lcase) : lcfg := mklcfg (lc_n k) (lc_side k) (lc_k k) (lc_mode k) 40 v.
 Definition lcase_fuel (k : lcase) : nat := 400 + 40 * lc_n k.
 Definition lcase_ok_with (v : lvariant) (k : lcase) : bool :=
   let c := lcase_cfg v k in
   negb (lc_modelled k) ||
-  outcome_eqb (outcome_of c (if lc_slow k then run_slow c (lcase_fuel k) else run_fair c (lcase_fuel k))) (lc_obs k).
+  outcome_eqb (outcome_of c (match lc_side k with
+                             | FEnd => run_end c (lc_first k) (lcase_fuel k)
+                             | _ => if lc_slow k then run_slow c (lcase_fuel k) else run_fair c (lcase_fuel k)
+                             end)) (lc_obs k).
 Fixpoint bad_indices {A} (f : A -> bool) (l : list A) (i : nat) : list nat :=
   match l with [] => [] | a :: tl => if f a then bad_indices f tl (S i) else i :: bad_indices f tl (S i) end.
 (* the correspondence runs the repaired protocol *)
